@@ -582,14 +582,42 @@ def p10_row_identifier_correspondence(prog):
     else:
         f = fs[0]
         r.inst('Locations::next')
-        ok = False
-        for g in [f] + f.closures():
-            for b, i, s in g.body.stmts():
-                if s['k'] == 'assign' and s['rv']['k'] == 'agg' and s['rv'].get('path', '').endswith('Location'):
-                    n1 = g.body.local_name(op_local(s['rv']['ops'][1])) if op_local(s['rv']['ops'][1]) is not None else None
-                    l0 = op_local(s['rv']['ops'][0])
-                    ok = (n1 == 'index' or l0 is not None)
-        rng = any(t['f']['path'] == 'core::iter::Iterator::next' for b, t in f.body.calls()) or any('Range' in json_s(t['f']['args']) for b, t in f.body.calls())
+        E = pathsem.analyse(prog, f)
+        rets = [p for p in E.paths if p.ended == 'return']
+        ladt = prog.adts.get('entity::allocator::locations::Locations')
+        lnames = [x['name'] for x in ladt['variants'][0]['fields']] if ladt else []
+        loc_adt = prog.adts.get('entity::allocator::location::Location')
+        loc_names = [x['name'] for x in loc_adt['variants'][0]['fields']] if loc_adt else []
+        me = ('p', 1, f.body.local_name(1) or '')
+        ok = bool(rets) and not E.truncated and 'identifier' in lnames and 'indices' in lnames and 'identifier' in loc_names and 'index' in loc_names
+        rng = False
+        n_some = 0
+        for p in rets if ok else []:
+            v = p.ret
+            nxt = p.calls(lambda e: e['path'] == 'core::iter::Iterator::next' and pathsem.mentions(e['args'][0], lambda t: pathsem.is_field_of(t, 'Locations', lnames.index('indices')) and pathsem.mentions(t, lambda w: w == me)))
+            rng = rng or bool(nxt)
+            if v == pathsem.NONE:
+                # only when the index range is exhausted
+                if not nxt or p.lookup(('discr', nxt[-1]['ret'])) != 0:
+                    ok = False
+                continue
+            if not (isinstance(v, tuple) and v[0] == 'agg' and v[2] == 'Some'):
+                ok = False
+                continue
+            n_some += 1
+            x = S(v[4][0])
+            l_id = l_ix = None
+            if isinstance(x, tuple) and x[0] == 'call' and x[1].endswith('location::Location::<R>::new') and len(x[2]) == 2:
+                l_id, l_ix = x[2]
+            elif isinstance(x, tuple) and x[0] == 'agg' and x[1] == 'entity::allocator::location::Location':
+                l_id, l_ix = x[4][loc_names.index('identifier')], x[4][loc_names.index('index')]
+            if l_id is None or not nxt:
+                ok = False
+                continue
+            payload = ('f', ('down', nxt[-1]['ret'], 'Some', 1), 0, 'core::option::Option')
+            if not (pathsem.is_field_of(S(l_id), 'Locations', lnames.index('identifier')) and pathsem.mentions(l_id, lambda w: w == me)) or S(l_ix) != payload or len(nxt) != 1:
+                ok = False
+        ok = ok and n_some > 0
         if not ok or not rng:
             r.viol('P10', 'Locations::next/shape', f.loc(), 'Locations::next must yield Location{identifier: self.identifier, index: next index of the range}')
     return r
